@@ -275,7 +275,10 @@ META = {
                  "errors and byte-exact two-way transfers are checked, every cleartext payload s2n sends to or receives from quiche is parsed "
                  "by both the real s2n decoder and the Lean RFC reference parser (must agree field by field), and both sides' transport "
                  "parameter blocks are read from the TLS messages and cross-checked against the Lean RFC table, the real decoder and the "
-                 "configured values."),
+                 "configured values. Conformance that s2n-quic talking to itself cannot reveal is checked against independent references: "
+                 "key schedule, packet and header protection of every cipher suite and TLS provider pair and the Retry integrity tag (every "
+                 "value of the unused first-byte bits) against a pure-python RFC 9001 implementation self-tested on the RFC vectors; every frame "
+                 "type a conformant peer may send in a 1-RTT packet is injected into real connections and must be accepted."),
         "note": ("Interop success on N sampled runs is observation, not proof. RFC 9001 key derivation is exercised (a deviation breaks every "
                  "handshake) but not modelled; version negotiation, Retry, 0-RTT, migration and key update are not sampled. TLS/BoringSSL "
                  "randomness is not seeded (verdicts are deterministic per seed, byte traces are not)."),
